@@ -61,7 +61,7 @@ ASSUME MaxFree \in 0..MaxTopics /\ MaxTopics \in 0..4
      data  "empty" | "D"                     Frame.__data                                                          *)
 OJ       == {"None", "True", "False"}                 \* outs_jpg
 Fmts     == {"GRAY", "BGR", "RGB"}
-ImgKinds == {"rw", "ro", "jpgonly", "jpgdec", "rocached"}
+ImgKinds == {"rw", "ro", "jpgonly", "jpgdec", "rocached", "decrw"}
 Datas    == {"empty", "D"}
 
 ShapeFor(h, w, fmt) == IF fmt = "GRAY" THEN <<h, w>> ELSE <<h, w, "3">>     \* frame.py l.214; mq.py l.249
@@ -79,6 +79,8 @@ Mk(s) ==
        [] s.kind = "jpgonly"  -> F("lazy", <<>>, FALSE, "yes", <<"J">>)        \* Frame.from_jpg(J,d,h,w,fmt) l.212-214
        [] s.kind = "jpgdec"   -> F("arr", <<"dec", "J">>, FALSE, "yes", <<"J">>)   \*   .. after .image    l.244-248
        [] s.kind = "rocached" -> F("arr", <<"P">>, FALSE, "yes", <<"enc", "P">>)   \* "ro" after .jpg     l.295-296
+       \* .rw of a decoded jpg frame (a NEW frame with a writable copy and no encoding), drawn on by the application
+       [] s.kind = "decrw"    -> F("arr", <<"draw", "dec", "J">>, TRUE, "no", <<>>)
 
 HasImage(f) == f.img # "none"                        \* frame.py l.312-316
 HasJpg(f)   == f.jpg = "yes"                         \* l.300-304 (None for an image-less frame is falsy)
